@@ -24,7 +24,7 @@ CONSTANTS MaxCAs,     \* intermediate CA certificates presented in the chain: 0.
 
 BC == {"absent", "ca", "notca"}
 PLC == IF Full THEN {-1, 0, 1, 2, 3} ELSE {-1, 0, 1, 2}
-KU == {"absent", "sign", "enc", "certsign", "sign+certsign"}         \* keyUsage: absent or the named bits
+KU == {"absent", "sign", "enc", "certsign", "sign+certsign", "crlsign"}   \* keyUsage: absent or the named bits ("certsign" = keyCertSign with or without cRLSign; "crlsign" = cRLSign without keyCertSign)
 EKU == IF Full THEN {"absent", "server", "client", "other"} ELSE {"absent", "other"}
 VALID == {"in", "before", "after"}
 SIG == {"good", "bad", "wrongkey"}                                    \* signature on this certificate by the next one's key
